@@ -178,6 +178,9 @@ func (e *Engine) contractFor(fn *ssa.Function) *FuncContract {
 }
 
 func (e *Engine) inlinable(fn *ssa.Function) bool {
+	if fn.Synthetic != "" && fn.Blocks != nil && (strings.HasPrefix(fn.Synthetic, "wrapper") || strings.HasPrefix(fn.Synthetic, "bound") || strings.HasPrefix(fn.Synthetic, "thunk")) {
+		return true // promoted-method wrappers: load the embedded field and forward
+	}
 	pkg, _ := funcKey(fn)
 	if strings.HasPrefix(pkg, modulePath) {
 		return true
